@@ -11,7 +11,7 @@ sys.path.insert(0, "/repo")
 from harness import framework  # noqa
 
 props = [json.loads(l) for l in open(os.path.join(ROOT, "properties.jsonl"))]
-built = set(framework.all_props())
+built = set(framework.all_props()) & set(json.load(open(os.path.join(ROOT, 'tools', 'accepted.json'))))
 na_reasons = {}
 p = os.path.join(ROOT, "tools", "not_applicable.json")
 if os.path.exists(p):
